@@ -342,19 +342,23 @@ func (arr sortedSplitList) Less(i, j int) bool {
 }
 
 func unifyMapSources(call *CallStm, ins map[string]*ResolvedBinding, disable []Exp) (*SplitExp, error) {
-	splits := make(map[*SplitExp]struct{})
-	for _, b := range ins {
-		findSplitsForCall(b.Exp, call, splits)
+	// Collect the splits in a repeatable order (by parameter name, then by
+	// position within the bound expression) and sort them by source
+	// location before merging.  The sort is stable: several splits on the
+	// same source line keep the order in which they were collected, so the
+	// split which represents the call does not depend on map iteration
+	// order.
+	seen := make(map[*SplitExp]struct{})
+	var splitList sortedSplitList
+	for _, id := range ResolvedBindingMap(ins).sortedKeys() {
+		if b := ins[id]; b != nil {
+			splitList = findSplitsForCall(b.Exp, call, seen, splitList)
+		}
 	}
 	for _, b := range disable {
-		findSplitsForCall(b, call, splits)
+		splitList = findSplitsForCall(b, call, seen, splitList)
 	}
-	// Sort the splits before merging, to make the resolution repeatable.
-	splitList := make(sortedSplitList, 0, len(splits))
-	for sp := range splits {
-		splitList = append(splitList, sp)
-	}
-	sort.Sort(splitList)
+	sort.Stable(splitList)
 	var root MapCallSource
 	var errs ErrorList
 	var ref MapCallSource
@@ -1077,30 +1081,34 @@ func findSplitCalls(exp Exp, result map[*CallStm]struct{}, onlyUnknown bool) {
 	}
 }
 
-func findSplitsForCall(exp Exp, call *CallStm, result map[*SplitExp]struct{}) {
+// findSplitsForCall appends the splits over the given call which the
+// expression contains to the list, each one once, in a repeatable order.
+func findSplitsForCall(exp Exp, call *CallStm, seen map[*SplitExp]struct{},
+	list sortedSplitList) sortedSplitList {
 	switch exp := exp.(type) {
 	case *SplitExp:
 		if exp.Call == call {
-			result[exp] = struct{}{}
+			if _, ok := seen[exp]; !ok {
+				seen[exp] = struct{}{}
+				list = append(list, exp)
+			}
 		}
-		findSplitsForCall(exp.Value, call, result)
+		return findSplitsForCall(exp.Value, call, seen, list)
 	case *MergeExp:
-		findSplitsForCall(exp.Value, call, result)
-		// if exp.ForkNode != nil {
-		// 	findSplitsForCall(exp.ForkNode, call, result)
-		// }
+		return findSplitsForCall(exp.Value, call, seen, list)
 	case *ArrayExp:
 		for _, v := range exp.Value {
-			findSplitsForCall(v, call, result)
+			list = findSplitsForCall(v, call, seen, list)
 		}
 	case *MapExp:
-		for _, v := range exp.Value {
-			findSplitsForCall(v, call, result)
+		for _, k := range exp.sortedKeys() {
+			list = findSplitsForCall(exp.Value[k], call, seen, list)
 		}
 	case *DisabledExp:
-		findSplitsForCall(exp.Value, call, result)
-		findSplitsForCall(exp.Disabled, call, result)
+		list = findSplitsForCall(exp.Value, call, seen, list)
+		return findSplitsForCall(exp.Disabled, call, seen, list)
 	}
+	return list
 }
 
 // Returns true if the node never runs.  Only returns a correct result if
